@@ -123,6 +123,30 @@ def gen_reload_case(rng):
     return ops
 
 
+def lru_exhaustive_cases(rng, tier):
+    """small capacities, exhaustively: every argument sequence of length cap+3 over cap+1 values inside one window (cap 1, 2; a
+    sample for cap 3), each on its own resource: the model's two LRU tables and the implementation's must evict the same victims
+    and give the same decisions (the eviction paths are outside the property's capacity hypothesis: correspondence only)"""
+    import itertools
+    cases = []
+    for cap in (1, 2, 3):
+        vals = ["v%d" % i for i in range(cap + 1)]
+        seqs = list(itertools.product(vals, repeat=cap + 3))
+        if cap == 3:
+            seqs = rng.sample(seqs, 150 if tier == "quick" else 1500)
+        ops = ["clock"]
+        for k in range(len(seqs)):
+            ops.append("hs.load res=l%d rules=%s" % (k, hs_rule("h", "q", "r", 0, "", 2, 0, 1, 10, cap, [])))
+        eid = 0
+        for k, seq in enumerate(seqs):
+            for v in seq:
+                eid += 1
+                ops.append("build e=%d res=l%d batch=1 dir=out args=%s" % (eid, k, v))
+                ops.append("exit e=%d" % eid)
+        cases.append(ops)
+    return cases
+
+
 def gen_own(rng, tier):
     n = 500 if tier == "quick" else 25000
     return [gen_case(rng) if i % 6 else gen_reload_case(rng) for i in range(n)]
@@ -131,4 +155,4 @@ def gen_own(rng, tier):
 def gen(rng, tier):
     """the property's own streams, with every 8th case taken from the shared mixed-world stream (gen/worldmix.py)"""
     cases = gen_own(rng, tier)
-    return [c if i % 8 != 7 else MIX.gen_mix(rng) for i, c in enumerate(cases)]
+    return lru_exhaustive_cases(rng, tier) + [c if i % 8 != 7 else MIX.gen_mix(rng) for i, c in enumerate(cases)]
